@@ -645,7 +645,12 @@ func FuzzyMatchV2(caseSensitive bool, normalize bool, forward bool, input *util.
 				}
 				i--
 			}
-			preferMatch = C[I+j0] > 1 || I+width+j0+1 < len(C) && C[I+width+j0+1] > 0
+			preferMatch = C[I+j0] > 1
+			if next := I/width + 1; !preferMatch && next < M && j < lastIdx && j+1 >= int(F[next]) {
+				// Look ahead to the next row, but only at the cells that were filled
+				// in (the columns from F[next]); the rest is whatever the slab held
+				preferMatch = C[next*width+j0+1] > 0
+			}
 			j--
 		}
 	}
